@@ -16,12 +16,14 @@ MODULES = [
     _mod("src/lib.rs", "verif/verif_c16.rs", "verif_c16"),
     _mod("src/lib.rs", "verif/verif_proj.rs", "verif_proj"),
     _mod("src/nested/zordercurve.rs", "../verif/verif_zoc.rs", "verif_zoc"),
-    _mod("src/nested/bmoc.rs", "../verif/verif_bmoc.rs", "verif_bmoc"),
+    _mod("src/nested/bmoc.rs", "../verif/verif_bmoc.rs", "verif_bmoc", "pub(crate) "),
     _mod("src/nested/mod.rs", "../verif/verif_uniq.rs", "verif_uniq"),
     _mod("src/nested/mod.rs", "../verif/verif_nb.rs", "verif_nb"),
     _mod("src/nested/mod.rs", "../verif/verif_ring.rs", "verif_ring"),
     _mod("src/nested/mod.rs", "../verif/verif_edge.rs", "verif_edge"),
     _mod("src/nested/mod.rs", "../verif/verif_hash.rs", "verif_hash"),
+    _mod("src/nested/mod.rs", "../verif/verif_geom.rs", "verif_geom"),
+    _mod("src/nested/mod.rs", "../verif/verif_cone.rs", "verif_cone"),
 ]
 
 def _c(file, anchor, *attrs, **kw):
